@@ -49,7 +49,9 @@ ValueJson(v) ==
 Verdict(ev) ==
     LET g == EnvOf(ev)
         want == Eval(ev.e, g, Ctx(ev.ctx))
-    IN IF Bad(want) THEN ""                 \* outside the exact model: not checked
+        mustFail == g.map /\ ~(PrefixesOf(ev.e) \subseteq DOMAIN g.ns)   \* an unbound prefix: Compile must fail
+    IN IF mustFail THEN (IF HasField(ev, "panic") /\ ev.panic = "compile" THEN "" ELSE "compile-accepted-unbound-prefix")
+       ELSE IF Bad(want) THEN ""                 \* outside the exact model: not checked
        ELSE IF HasField(ev, "panic") THEN "panic:" \o ev.panic
        ELSE IF want.t = "ns"
        THEN IF ~HasField(ev, "ids") THEN "type"
@@ -75,7 +77,9 @@ WantJson(ev) ==
 Validate ==
     ph = 2 =>
       LET ev == Trace[l]
-          v == IF Tainted(ev.e, EnvOf(ev), Ctx(ev.ctx)) THEN "" ELSE Verdict(ev)
+          g0 == EnvOf(ev)
+          v == IF g0.map /\ ~(PrefixesOf(ev.e) \subseteq DOMAIN g0.ns) THEN Verdict(ev)
+               ELSE IF Tainted(ev.e, g0, Ctx(ev.ctx)) THEN "" ELSE Verdict(ev)
       IN IF v = "" THEN TRUE
          ELSE CSVWrite("%1$s", <<ToJson([l |-> l, fail |-> v, want |-> WantJson(ev)])>>, OutFile)
 =============================================================================
